@@ -35,6 +35,7 @@ RULE = (
     'types, or bytes with a backslash, or a policy document with a disapproved pyref.'
 )
 RULE += (' ' + 'Also generated: a class and a function whose snake-cased names collide (DataLoader / data_loader) in one document.')
+RULE += (' ' + 'Round 7: a dict-based class with a __setattr__ of its own.')
 RULE += (' ' + 'Round 6: a constant registered by value that equals a JSON primitive of another type (Fraction(3, 2) == 1.5), as a leaf next to such primitives.')
 RULE += (' ' + 'Rounds 3-5: policy documents also through ZlibJSONSerializer (optionally after a first decode under an allow-all policy); dict-based class with a __new__ of its own; inherited classmethods reached through a subclass; three rejected register_constant calls with hash-equal unserializable values.')
 ASSUMPTIONS = [
@@ -55,6 +56,7 @@ for _name in ('HALF', 'ADAM', 'PAIR34'):
   except ValueError:
     pass
 serialization.register_dict_based_object(things.DictObjNew)
+serialization.register_dict_based_object(things.DictObjGuard)
 # a constant registered by value that is == (and hash-equal) to the float 1.5: the float stays a float
 serialization.register_constant('harness.vuni.things', 'FRAC_3_2', compare_by_identity=False)
 
